@@ -3,6 +3,8 @@ package main
 import (
 	"fmt"
 	"reflect"
+
+	"github.com/grailbio/bigslice/frame"
 )
 
 // Column kinds of the harness's type universe.  Every value is the image of a
@@ -14,7 +16,46 @@ type stKind struct {
 	B string
 }
 
+// ccKind has a custom frame codec (registered below): Encode/Decode of the column go through
+// frame.Ops rather than gob's value encoding.
+type ccKind struct{ V int }
+
+var ccKey = frame.FreshKey()
+
+func init() {
+	frame.RegisterOps(func(slice []ccKind) frame.Ops {
+		return frame.Ops{
+			Encode: func(e frame.Encoder, i, j int) error {
+				vs := make([]int, 0, j-i)
+				for _, c := range slice[i:j] {
+					vs = append(vs, c.V*3+1)
+				}
+				return e.Encode(vs)
+			},
+			Decode: func(d frame.Decoder, i, j int) error {
+				var calls *int
+				if d.State(ccKey, &calls) {
+					*calls = 0
+				}
+				*calls++
+				var vs []int
+				if err := d.Decode(&vs); err != nil {
+					return err
+				}
+				if len(vs) != j-i {
+					return fmt.Errorf("custom codec: %d values for %d rows", len(vs), j-i)
+				}
+				for k, v := range vs {
+					slice[i+k] = ccKind{(v - 1) / 3}
+				}
+				return nil
+			},
+		}
+	})
+}
+
 var kindTypes = map[string]reflect.Type{
+	"cc":    reflect.TypeOf(ccKind{}),
 	"i64":   reflect.TypeOf(int64(0)),
 	"i32":   reflect.TypeOf(int32(0)),
 	"i16":   reflect.TypeOf(int16(0)),
@@ -97,6 +138,8 @@ func fromInt(k string, v int) reflect.Value {
 		return reflect.ValueOf([]int32{int32(v), int32(v)})
 	case "arr":
 		return reflect.ValueOf([3]int16{int16(v), int16(v), int16(v)})
+	case "cc":
+		return reflect.ValueOf(ccKind{v})
 	}
 	panic("unknown kind " + k)
 }
@@ -154,6 +197,8 @@ func toInt(k string, v reflect.Value) int {
 			return -999
 		}
 		return int(v.Index(0).Int())
+	case "cc":
+		return v.Interface().(ccKind).V
 	case "arr":
 		a := v.Interface().([3]int16)
 		if a[0] != a[1] || a[1] != a[2] {
